@@ -166,6 +166,7 @@ if (jcol == BADPAN)
 	pmod = Gstat->procstat[pnum].fcops;
 #endif
 	    
+	SLU_VERIF_EV(SLU_VEV_READ_BEGIN, pnum, jcol, fsupc, krep, pxgstrf_shared);
 	if ( nsupc >= colblk && nrow >= rowblk ) {
 	    /* 2-D block update */
 #ifdef GEMV2
@@ -310,6 +311,7 @@ if ( jcol==BADCOL )
 
 	} while ( dadsupno == ksupno );
 
+	SLU_VERIF_EV(SLU_VEV_WAIT_END, pnum, jcol, fsupc, krep, pxgstrf_shared);
 	/* Append the new segment into segrep[*]. After column_bmod(),
 	   copy_to_ucol() will use them. */
 	segrep[*nseg] = krep;
